@@ -25,7 +25,7 @@ VarintAt(b, p, shift, acc) ==
 Varint(b, p) == VarintAt(b, p, 1, 0)
 SignedOf(u) == IF u % 2 = 1 THEN -(u \div 2) ELSE u \div 2
 
-Bad == <<"bad">>
+Bad == << <<-9, -9, -9, -9>> >>     \* "malformed table": same shape as a position list, never equal to a real one
 
 (* Decode one entry starting at p with running line `line`.                 *)
 (* Result: [ok, next, line (new running line), n (code units), pos]         *)
